@@ -3,6 +3,10 @@
 # case:   c10.run <stream> <fragMs>:<fragNum>:<delThr>:<cleanup> <ev>,<ev>,...
 #   N | P:<patpmt> | A|V:<pts>:<dts>:<boundary>:<now>:<tsPackets> | D | C      (see harness/cmd/lalprobe/c10.go)
 # output: ops <op>;<op>;... files <name>=<c|o>:<hex>,...
+# case:   c10.sm <stream> <fragMs>:<fragNum>:<delThr>:<cleanup> <ev>,...     the server level on the real ServerManager
+#   N (publish) | P | A|V | D (stop: arms the real delayed cleanup) | T (housekeeping tick) | C (wait for the oldest
+#   armed cleanup to run)                                                     (see harness/cmd/lalprobe/c10srv.go)
+# output: ev <ops of event 1>|<ops of event 2>|... files ...
 #
 # The oracle below re-plays the implementation's operation log on its own file
 # system and evaluates the property on EVERY prefix, with an m3u8 parser written
@@ -65,6 +69,12 @@ class Sc:
 
     def C(self):
         self.ev.append("C"); return self
+
+    def T(self):
+        self.ev.append("T"); return self
+
+    def line_sm(self, ms, num, thr, mode):
+        return "c10.sm %s %d:%d:%d:%d %s" % (self.stream, ms, num, thr, mode, ",".join(self.ev) if self.ev else "-")
 
     def P(self, k=0, raw=None):
         self.ev.append("P:" + (raw if raw is not None else patpmt(k))); return self
@@ -200,6 +210,52 @@ def gen_cases(tier, rng):
     for mode in [0, 1, 2]:
         for alive in [1, 0]:
             yield Case("c10.cleanup %d %d" % (mode, alive), cls="server-manager-cleanup")
+    # the server level: publish / stop (arms the REAL delayed cleanup) / housekeeping tick (erases the idle group) /
+    # re-publish (fresh group) / the cleanup firing, in every order.  After a first publication that is stopped,
+    # every word over {T tick, R re-publish + 2 segments, C wait for the oldest cleanup, D stop} up to a length;
+    # then more frames when a publisher is live, stop, and all pending cleanups.
+    import itertools
+    def sm_script(word, ms, n1=3):
+        sc = Sc().N().P()
+        t = steady(sc, 0, n1, ms, per_seg=2); sc.V(t, True); sc.D()
+        live, pend, t = False, 1, 0
+        for w in word:
+            if w == "T":
+                sc.T()
+            elif w == "R":
+                if not live:
+                    sc.now += 500
+                    sc.N().P(); t = steady(sc, 0, 2, ms, per_seg=2); sc.V(t, True); live = True
+                else:
+                    sc.N()                     # refused: already has a publisher
+            elif w == "C":
+                sc.C(); pend = max(0, pend - 1)
+            elif w == "D":
+                if live:
+                    pend += 1
+                sc.D(); live = False
+        if live:
+            t = steady(sc, t + ms, 2, ms, per_seg=2); sc.V(t, True); sc.D(); pend += 1
+        for _ in range(pend):
+            sc.C()
+        return sc
+    words = []
+    for n in (1, 2, 3) if Q else (1, 2, 3, 4):
+        words += ["".join(w) for w in itertools.product("TRCD", repeat=n)]
+    key_words = ["TRC", "TCR", "CTR", "RTC", "RCT", "RC", "TR", "TRDCC", "TRDCTRC", "TRDTRCC", "RDTRCC", "TTRC"]
+    for mode, (ms, num, thr) in [(1, (20, 2, 1)), (2, (25, 1, 1)), (0, (50, 1, 0))]:
+        if mode == 1:
+            ws = [w for w in words if "R" in w] + key_words[7:]
+        elif mode == 2:
+            ws = key_words + ([] if Q else [w for w in words if "R" in w])
+        else:
+            ws = ["TRC", "RC", "TCR"]
+        seen = set()
+        for w in ws:
+            if w in seen:
+                continue
+            seen.add(w)
+            yield Case(sm_script(w, ms).line_sm(ms, num, thr, mode), cls="server-" + ("republish-after-erase" if "TR" in w.replace("C", "") else "interleaving"))
     # hostile / degenerate inputs: compared model == implementation only
     sc = Sc().P().V(0, True).D().C()
     yield Case(sc.line(1000, 3, 1, 0), cls="degenerate")
@@ -258,6 +314,11 @@ def gen_cases(tier, rng):
 def nontrivial(c, out):
     if c.line.startswith("c10.cleanup"):
         return c.line
+    if c.line.startswith("c10.sm"):
+        if not out.startswith("ev ") or ";rn:" not in out:
+            return None
+        f = c.line.split(" ")
+        return "%s|%s|%s" % (c.cls, f[2], "".join(e[0] for e in f[3].split(",") if e[0] in "NDTC"))
     if not out.startswith("ops ") or ";rn:" not in out:
         return None
     f = c.line.split(" ")
@@ -361,11 +422,24 @@ def parse_case(line):
     return stream, (ms, num, thr, mode), evs
 
 
+def parse_groups(out):
+    """c10.sm: the calls of each event"""
+    f = out.split(" ")
+    if len(f) != 4 or f[0] != "ev" or f[2] != "files":
+        raise ValueError("unparsable output")
+    if f[1] == "-":
+        return []
+    return [[] if g == "-" else [o.split(":") for o in g.split(";")] for g in f[1].split("|")]
+
+
 def parse_out(out):
     f = out.split(" ")
-    if len(f) != 4 or f[0] != "ops" or f[2] != "files":
+    if len(f) != 4 or f[0] not in ("ops", "ev") or f[2] != "files":
         raise ValueError("unparsable output")
-    ops = [] if f[1] == "-" else [o.split(":") for o in f[1].split(";")]
+    if f[0] == "ev":
+        ops = [o for g in parse_groups(out) for o in g]
+    else:
+        ops = [] if f[1] == "-" else [o.split(":") for o in f[1].split(";")]
     files = {}
     if f[3] != "-":
         for it in f[3].split(","):
@@ -421,6 +495,27 @@ def check(line, out):
         return None
 
     fails = []
+    if line.startswith("c10.sm"):
+        # the delayed cleanup never removes the directory while a publisher (hence a muxer) is live for the name,
+        # and nothing but a delayed cleanup ever removes it: liveness is read off the SCRIPT (N .. D), the
+        # removal off the implementation's calls
+        groups = parse_groups(out)
+        if len(groups) != len(evs):
+            fails.append(("ops", "%d events but %d groups of calls" % (len(evs), len(groups))))
+        alive = False
+        for n, (e, g) in enumerate(zip(evs, groups)):
+            for o in g:
+                if o[0] == "ra":
+                    if alive:
+                        fails.append(("cleanup-live", "event %d (%s): the stream directory was removed while a publisher is live" % (n, e[0])))
+                    elif e[0] != "C":
+                        fails.append(("cleanup-live", "event %d (%s) removed the stream directory" % (n, e[0])))
+                elif e[0] in ("T", "C"):
+                    fails.append(("ops", "event %d (%s) made the call %s" % (n, e[0], o[0])))
+            if e[0] == "N":
+                alive = True
+            elif e[0] == "D":
+                alive = False
     fsys = {}           # name -> [bytearray, closed]
     versions = []       # parsed live playlists, one per replacement of the live file
     last_seq = None
@@ -663,6 +758,21 @@ def classify_finding(c, out):
 def neighbors(c, rng):
     """cases near a disagreement: drop events, change the configuration"""
     f = c.line.split(" ")
+    if f[0] == "c10.sm":
+        evs = f[3].split(",") if f[3] != "-" else []
+        ctl = [i for i, e in enumerate(evs) if e in ("T", "C", "D", "N")]
+        for _ in range(24):
+            e2 = list(evs)
+            r = rng.random()
+            if r < 0.4 and len(ctl) >= 2:
+                i, j = rng.sample(ctl, 2)
+                e2[i], e2[j] = e2[j], e2[i]
+            elif r < 0.7 and ctl:
+                del e2[rng.choice(ctl)]
+            else:
+                e2.insert(rng.randrange(len(e2) + 1), rng.choice(["T", "C"]))
+            yield "%s %s %s %s" % (f[0], f[1], f[2], ",".join(e2) if e2 else "-")
+        return
     if f[0] != "c10.run":
         return
     evs = f[3].split(",") if f[3] != "-" else []
